@@ -3,6 +3,7 @@ package main
 // Executor-level values, the symbolic state, and conversion between Go-typed values and SMT terms.
 
 import (
+	"sync"
 	"math/big"
 	"fmt"
 	"go/types"
@@ -214,6 +215,9 @@ type Engine struct {
 	objElem   map[int]types.Type
 	nIter     int
 	localArr  map[int]bool // byte arrays that are local variables (mutable through slices)
+	axiomMu   sync.Mutex
+	axiomNote map[string]string // axiom text -> description (contract axioms)
+	axiomUsed map[string]bool   // descriptions of the axioms included in some query
 	elemAlias map[int]elemAliasT // objects reflected out of pointer-element arrays: writes go back to the array
 	inProgress map[string]bool
 }
@@ -237,7 +241,7 @@ type dynCon struct {
 }
 
 func NewEngine(prog *ssa.Program) *Engine {
-	return &Engine{prog: prog, declSet: map[string]bool{}, dtSet: map[string]string{}, dtFields: map[string][]dtField{}, dynSet: map[string]int{}, assumpt: map[string]bool{}, axiomSet: map[string]bool{}, implCache: map[string][]types.Type{}, objElem: map[int]types.Type{}, elemAlias: map[int]elemAliasT{}, localArr: map[int]bool{}, inProgress: map[string]bool{}}
+	return &Engine{prog: prog, declSet: map[string]bool{}, dtSet: map[string]string{}, dtFields: map[string][]dtField{}, dynSet: map[string]int{}, assumpt: map[string]bool{}, axiomSet: map[string]bool{}, implCache: map[string][]types.Type{}, objElem: map[int]types.Type{}, elemAlias: map[int]elemAliasT{}, localArr: map[int]bool{}, inProgress: map[string]bool{}, axiomNote: map[string]string{}, axiomUsed: map[string]bool{}}
 }
 
 func (e *Engine) note(a string) { e.assumpt[a] = true }
